@@ -333,3 +333,20 @@ def long_molecule_case(rng, nq=None, mode=None, indel=(1500, 20000)):
         qclass[str(qid)] = 'long-multi-indel'
         qid += 1
     return {'refs': refs, 'queries': queries, 'qclass': qclass, 'params': dict(DEFAULTS), 'mode': mode or rng.choice(MODES)}
+
+
+def big_file_case(rng, nq):
+    """Many short clean queries on one reference: a file with more than a thousand records (writer batching, ids)."""
+    pos = gen_ref(rng, 150, mean=9000, mn=2000, decimals=False, repeats=False)
+    refs = [[1, ref_length(rng, pos), pos]]
+    queries, qclass = [], {}
+    for j in range(nq):
+        n = rng.randint(9, 14)
+        s = rng.randint(0, len(pos) - n - 1)
+        sub = pos[s:s + n]
+        q, L = finish_query(rng, [p - sub[0] for p in sub], off=20.0, trail=50)
+        queries.append([j + 1, L, q])
+        qclass[str(j + 1)] = 'clean-short'
+    P = dict(DEFAULTS)
+    P['p'] = 1
+    return {'refs': refs, 'queries': queries, 'qclass': qclass, 'params': P, 'mode': rng.choice(['best', 'separate'])}
